@@ -69,6 +69,9 @@ def _ops():
         st.tuples(st.just("cls_trigger"), _cls, _name),
         st.tuples(st.just("add"), _cls, _name, _kind, _small, st.booleans()),
         st.tuples(st.just("add"), _cls, _name, _kind, _small, st.booleans()),
+        # a runtime addition / class-level assignment of a Parameter object that is refused when the default it would inherit
+        # does not satisfy its bounds (and accepted otherwise)
+        st.tuples(st.just("add_bounded"), _cls, _name3, st.sampled_from(["add_parameter", "setattr"])),
         st.tuples(st.just("new"), _cls),
         st.tuples(st.just("inst_set"), _small, _name, _small),
         st.tuples(st.just("inst_read"), _small, _name),
@@ -327,6 +330,20 @@ def execute(case):
             finally:
                 K.param.unwatch(h)
             res.label("class_level_trigger")
+        elif name == "add_bounded":
+            K = classes[op[1]]
+            n = NAMES[op[2]]
+            try:
+                if op[3] == "setattr":
+                    setattr(K, n, param.Number(bounds=(-1, 100)))
+                else:
+                    K.param.add_parameter(n, param.Number(bounds=(-1, 100)))
+            except (RuntimeError, ValueError, TypeError):
+                res.label("runtime_addition_refused")
+            else:
+                res.label("runtime_addition_of_bounded_parameter_accepted")
+            if any(k in read_classes for k in classes if k is K or K in parents[k]):
+                nontrivial = True
         elif name == "cls_assign_param":
             # a class-level assignment whose value is a Parameter object (the metaclass documents it as (re)declaring it)
             K = classes[op[1]]
@@ -334,7 +351,10 @@ def execute(case):
             if any(k in read_classes for k in classes if k is K or K in parents[k]):
                 nontrivial = True
                 res.label("read_before_class_change")
-            setattr(K, n, _mk(op[3], op[4]))
+            try:
+                setattr(K, n, _mk(op[3], op[4]))
+            except RuntimeError:
+                res.label("runtime_addition_refused")      # (the default does not satisfy what is inherited for that name)
             res.label("class_level_assignment_of_parameter_object")
         elif name == "add":
             K = classes[op[1]]
@@ -344,11 +364,14 @@ def execute(case):
                 res.label("read_before_class_change")
             p = _mk(op[3], op[4])
             via_inst = [i for i in insts if type(i) is K] if op[5] else []
-            if via_inst:
-                via_inst[0].param.add_parameter(n, p)
-                res.label("add_via_instance")
-            else:
-                K.param.add_parameter(n, p)
+            try:
+                if via_inst:
+                    via_inst[0].param.add_parameter(n, p)
+                    res.label("add_via_instance")
+                else:
+                    K.param.add_parameter(n, p)
+            except RuntimeError:
+                res.label("runtime_addition_refused")      # (the default does not satisfy what is inherited for that name)
             st_ = _static(K)
             if n in NAMES[:3]:
                 res.label("add_existing_name")
